@@ -174,8 +174,10 @@ CLAIMED = {
         "inputs with the split string at every alignment around 32 KiB block edges, chunk structure compared with the model of the scanner.",
    design_ref="DESIGN.md section 7a (reader round trip, header round trip) and section 7 C01",
    note="Partial: the per-chunk work of the writer is modelled at the level of whole chunks (Encode.closeFile: entry, checksums, stored form "
-        "from the compressor parameter), not as the incremental buffer machine of comp_write / end_cchunk; the scanner's byte-preservation (termination of the automatic chunker is "
-        "proved: Props/C16Term.lean closeChunks_total / written_back_total, so 'if the calls complete' is discharged) "
+        "from the compressor parameter), not as the incremental buffer machine of comp_write / end_cchunk. Proved in the sixth session: termination of the automatic chunker "
+        "(Props/C16Term.lean closeChunks_total / written_back_total, so 'if the calls complete' is discharged) and the zck tool's split-string "
+        "scanner (Props/C01Scanner.lean scanner_preserves: for every split string, input and cutting into read blocks the bytes handed to "
+        "zck_write are the input; zck_tool_chunks: the chunks zck closes are the input); the tools' option plumbing and unzck's write loop "
         "are not theorems; codec round trip (decomp (comp x) = x) assumed.",
    technique="Lean 4 proof (accounting invariant over write calls; serialiser/parser round trip by positional decoding; reader loop invariant + termination measure over all read schedules) + differential correspondence incl. re-serialisation identity and real CLI tools"),
  'C03': dict(
